@@ -1,5 +1,6 @@
 """Executes one world (section 2 of DESIGN.md) against the real pygradflow code
 and records everything that crossed a seam."""
+import inspect
 import logging
 import traceback
 import warnings
@@ -117,14 +118,28 @@ class Trial:
         return bool(self.penalty[1])
 
 
+class HarnessError(BaseException):
+    """A seam of the simulator no longer fits the code (never a verdict about a property)."""
+
+
+_STEP_SIG = inspect.signature(Solver._compute_step)
+
+
 class RecordingSolver(Solver):
-    """Trial log through the existing seam Solver._compute_step."""
+    """Trial log through the existing seam Solver._compute_step.  Arguments are bound by *name*
+    against the real method's signature, so added or reordered parameters do not break the seam."""
 
     def _sim_init(self, ex):
         self._ex = ex
 
-    def _compute_step(self, controller, iterate, rho, dt, display, timer):
+    def _compute_step(self, *args, **kwargs):
         ex = self._ex
+        try:
+            ba = _STEP_SIG.bind(self, *args, **kwargs)
+            iterate, rho, dt = ba.arguments["iterate"], ba.arguments["rho"], ba.arguments["dt"]
+        except (TypeError, KeyError) as e:
+            raise HarnessError("trial-log seam lost: Solver._compute_step%s no longer takes iterate/rho/dt (%s)" % (_STEP_SIG, e))
+        ex.problem.phase = "run"
         ex._hook_penalty(self)
         lim = self.params.iteration_limit
         cap = (lim + 2) if lim is not None else ex.step_cap
@@ -148,7 +163,7 @@ class RecordingSolver(Solver):
         ex.trials.append(tr)
         ex.log(("trial.begin", tr.t, fb(dt), fb(rho)))
         try:
-            r = super()._compute_step(controller, iterate, rho, dt, display, timer)
+            r = super()._compute_step(*args, **kwargs)
         except BaseException as e:  # recorded, then re-raised unchanged
             tr.exc = type(e).__name__
             tr.reads_after = ex.clock.n
@@ -337,6 +352,7 @@ def execute(world, *, problem=None, solver=None, params=None, reuse_solver=False
     if alias:
         problem.start_alias_tracking()
 
+    problem.phase = "construct"
     x0 = np.array(world["x0"] if x0 is None else x0, dtype=float)
     y0 = np.array(world["y0"] if y0 is None else y0, dtype=float)
     problem.x0_bytes = x0.tobytes()
@@ -383,6 +399,7 @@ def execute(world, *, problem=None, solver=None, params=None, reuse_solver=False
         problem.oob = []
         problem.calls = []
         problem.armed = True
+        problem.phase = "presolve"
         # virtual time may pass between building the solver and calling solve()
         clock.t += float((world.get("clock") or {}).get("gap_before_solve", 0.0))
         ex.t_begin = clock.t
